@@ -340,6 +340,14 @@ def scenarios(ctx, specs):
                 'targets': ['T'], 'steps': [['start', [2026, 3, 2, 0, 0, 1, 0]], ['dispatch']]})
     out.append({'name': 'window-plus-1us', 'events': [['A', si(dow=0, time=(0, 5, 1))]],
                 'targets': ['T'], 'steps': [['start', [2026, 3, 2, 0, 0, 0, 999999]], ['dispatch']]})
+    # (5d) a target becomes known between two firings a few minutes apart: the
+    # second due node is queued for the targets known at ITS moment
+    out.append({'name': 'new-target-between-firings',
+                'events': [['A', si(dow=0, time=(0, 4, 59))], ['C', si(dow=0, time=(0, 5, 1))]],
+                'targets': ['T', 'U'],
+                'steps': [['start', [2026, 3, 1, 12, 0, 0, 0]], ['defer', [2026, 3, 2, 0, 0, 0, 0]],
+                          ['targets', ['T', 'U', 'W']],
+                          ['defer', [2026, 3, 2, 0, 0, 2, 0]], ['dispatch']]})
     # (6) seeded random scenarios over mutually independent nodes
     rng = random.Random('%s:C20:scenarios' % ctx.seed)
     groups = [['root'], ['A', 'B'], ['A'], ['B'], ['C'], ['D'], ['E']]
@@ -387,10 +395,13 @@ def scenarios(ctx, specs):
                 tg = '__all__' if nd == 'E' and rng.random() < 0.8 else \
                     rng.choice((targets or ['T']) + ['__all__'])
                 steps.append(['complete', cv, nd, tg])
-            elif r < 0.95:
+            elif r < 0.93:
                 steps.append(['pause'])
-            else:
+            elif r < 0.96:
                 steps.append(['unpause'])
+            else:
+                # a target becomes known / is forgotten while the scheduler is up
+                steps.append(['targets', rng.choice([['T', 'U', 'W'], ['T', 'W'], ['W'], ['T', 'U', 'V', 'W']])])
         out.append({'name': 'rand%d' % k, 'events': evs, 'targets': targets, 'steps': steps})
     return out
 
@@ -405,6 +416,10 @@ def coq_scenario(sc, specs, engine, trace):
     for st in sc['steps']:
         if st[0] == 'complete' and st[3] not in tid:
             tid[st[3]] = len(tid)
+        if st[0] == 'targets':
+            for t in st[1]:
+                if t not in tid:
+                    tid[t] = len(tid)
     nodes = sorted({n for n, _ in sc['events']}, key=lambda n: NODE_ID[n])
     ids = [NODE_ID[n] for n in nodes]
     located = []
@@ -417,24 +432,29 @@ def coq_scenario(sc, specs, engine, trace):
         for n in engine) + 'init_node false 0'
     start = sc['steps'][0]
     paused = 'true' if (len(start) > 2 and start[2]) else 'false'
-    steps = ['SDefer %s' % coq_clock(start[1])]
+    def tl(ts):
+        return '[' + ';'.join('%d%%nat' % tid[t] for t in ts) + ']'
+
+    cur = list(sc['targets'])
+    steps = ['(%s, SDefer %s)' % (tl(cur), coq_clock(start[1]))]
     for i, st in enumerate(sc['steps'][1:], 1):
         if st[0] == 'defer':
-            steps.append('SDefer %s' % coq_clock(st[1]))
+            steps.append('(%s, SDefer %s)' % (tl(cur), coq_clock(st[1])))
         elif st[0] == 'timers':
-            steps.append('STimers %s %d%%nat' % (coq_clock(st[1]),
-                                                len(trace[i - 1]['timers'])))
+            steps.append('(%s, STimers %s %d%%nat)' % (tl(cur), coq_clock(st[1]),
+                                                      len(trace[i - 1]['timers'])))
         elif st[0] == 'dispatch':
-            steps.append('SDispatch')
+            steps.append('(%s, SDispatch)' % tl(cur))
         elif st[0] == 'complete':
-            steps.append('SComplete %d%%nat %d%%nat' % (NODE_ID[st[2]], tid[st[3]]))
+            steps.append('(%s, SComplete %d%%nat %d%%nat)' % (tl(cur), NODE_ID[st[2]], tid[st[3]]))
         elif st[0] == 'pause':
-            steps.append('SPause')
+            steps.append('(%s, SPause)' % tl(cur))
         elif st[0] == 'unpause':
-            steps.append('SUnpause')
-    targets = '[' + ';'.join('%d%%nat' % tid[t] for t in sc['targets']) + ']'
-    term = ('run_steps %s [%s] (attach [%s] (init_sched (%s) %s)) [%s]' % (
-        targets, ';'.join('%d%%nat' % i for i in ids), ';'.join(located), nodef,
+            steps.append('(%s, SUnpause)' % tl(cur))
+        elif st[0] == 'targets':
+            cur = list(st[1])     # no step of the model: the list of the moment changes
+    term = ('DV.Model.DelayT.run_steps_t [%s] (attach [%s] (init_sched (%s) %s)) [%s]' % (
+        ';'.join('%d%%nat' % i for i in ids), ';'.join(located), nodef,
         paused, ';'.join(steps)))
     return term, tid, nodes
 
@@ -467,8 +487,12 @@ def model_obs(v):
 
 def scenario_oracle(ctx, sc, trace, engine):
     '''the property on the implementation's own trace'''
+    known = list(sc['targets'])      # the targets known at the moment of the step
     for i, (step, snap) in enumerate(zip(sc['steps'], trace)):
         rep = {'source': 'oracle', 'scenario': sc, 'step': i}
+        if step[0] == 'targets':
+            known = list(step[1])
+            continue
         pre = snap.get('pre')
         if step[0] in ('start', 'defer') and pre and snap['exc'] is None \
                 and not (step[0] == 'start' and len(step) > 2 and step[2]) \
@@ -492,7 +516,7 @@ def scenario_oracle(ctx, sc, trace, engine):
                     tags = [t for t in snap['nodes'] if t.split('.')[-1] == name]
                     for tag in tags:
                         node = snap['nodes'][tag]
-                        want = ['__all__'] if node['asp'] else sc['targets']
+                        want = ['__all__'] if node['asp'] else known
                         if tag not in snap['que'] or not set(want) <= set(node['todo']):
                             ctx.violation(
                                 'boot-not-fired', {'tag': name},
@@ -516,7 +540,7 @@ def scenario_oracle(ctx, sc, trace, engine):
                                 dict(rep, theorem='C20_recurs_refuted'))
                         continue
                     node = snap['nodes'][tag]
-                    want = ['__all__'] if node['asp'] else sc['targets']
+                    want = ['__all__'] if node['asp'] else known
                     if tag not in snap['que'] or node['status'] != 'waiting' or \
                             not set(want) <= set(node['todo']):
                         ctx.violation(
@@ -888,7 +912,7 @@ def run(ctx):
             term, tid, nodes = coq_scenario(sc, specs, engine, trace)
             sc_terms.append((tid, nodes))
             exprs.append(term)
-        vals = ctx.coq_eval(['DV.Model.Delay'], exprs, preamble=pre, chunk=60)
+        vals = ctx.coq_eval(['DV.Model.Delay', 'DV.Model.DelayT'], exprs, preamble=pre, chunk=60)
         ctx.log('model evaluated')
         ni = len(inst)
         for nowv, row, mrow in zip(inst, out['sweep'], vals[:ni]):
@@ -917,12 +941,13 @@ def run(ctx):
         for k, (sc, trace) in enumerate(zip(scs, out['scenarios'])):
             tid, nodes = sc_terms[k]
             mt = [model_obs(v) for v in vals[base + k]]
-            it = [impl_obs(s, tid, nodes) for s in trace]
+            it = [impl_obs(s, tid, nodes) for st_, s in zip(sc['steps'], trace) if st_[0] != 'targets']
             nev += len(it)
             if mt != it and mism is None:
                 j = [a != b for a, b in zip(mt, it)].index(True) if len(mt) == len(it) else 0
+                msteps = [st_ for st_ in sc['steps'] if st_[0] != 'targets']
                 mism = ('defer scenario', '%s step %d %s: implementation %s, model %s'
-                        % (sc['name'], j, sc['steps'][j], it[j] if j < len(it) else None,
+                        % (sc['name'], j, msteps[j] if j < len(msteps) else None, it[j] if j < len(it) else None,
                            mt[j] if j < len(mt) else None),
                         {'scenario': sc, 'step': j})
             if any(len(e) for e in [sc['events']]) and len(sc['steps']) > 2:
